@@ -384,7 +384,8 @@ def accumulators(ctx: Ctx):
                 contributes = any(m is acc for m in vg.walk(inner)) and nf.strip(inner) is not acc
                 if c is not None and c[1] == "==0" and "actions" in vg.params_of(cond) and contributes:
                     ok, form = True, "(i) reset at the depot as the last write"
-                elif c is not None and c[1] == ">0" and contributes and "vehicle_capacity" in vg.cells_of(inner):
+                elif c is not None and c[1] == ">0" and contributes and "vehicle_capacity" in vg.cells_of(inner) and not (c[0] + nf.poly(inner)).terms:
+                    # the cells below zero -- `inner < 0`, i.e. -inner > 0 -- are the ones raised to zero (a LOWER clamp: `inner > 0` would wipe every load)
                     ok, form = True, "(iii) clamp at zero with depot pseudo-demand -capacity"
             if not ok:
                 p = nf.poly(body)
